@@ -123,15 +123,37 @@ def bytes_facts(repo):
     step("plain", "if is_numeric_str(size):")
     step("suffix-B", "elif size[-1] == 'B' and is_numeric_str(size[:-1]):")
     step("suffix-unit", "elif size[-2:] in units and is_numeric_str(size[:-2]):", "unit = size[-2:]", "value = size[:-2]")
-    step("exact-rational", "exact_size = Fraction(value) * unit_factor")
+    step("decimal-parse", "decimal_value = Decimal(value)", "except ArithmeticError:", "decimal_value = Decimal('nan')")
+    step("finite-test", "if not decimal_value.is_finite():")
+    step("exact-rational", "exact_size = Fraction(decimal_value) * unit_factor")
     step("whole-test", "if exact_size.denominator != 1:")
     step("to-int", "size = int(exact_size)")
     step("float-whole", "if size.is_integer():", "size = int(size)")
     step("nonneg", "if size >= 0:", "return size")
+    # out-of-range test: `if decimal_value != 0 and abs(decimal_value.adjusted()) > <bound>: raise ValueError`
+    bound = None
+    for n in ast.walk(fn):
+        if isinstance(n, ast.If) and "adjusted()" in _src(n.test):
+            t = n.test
+            ok = (isinstance(t, ast.BoolOp) and isinstance(t.op, ast.And) and len(t.values) == 2
+                  and _src(t.values[0]) == "decimal_value != 0"
+                  and isinstance(t.values[1], ast.Compare) and len(t.values[1].ops) == 1 and isinstance(t.values[1].ops[0], ast.Gt)
+                  and _src(t.values[1].left) == "abs(decimal_value.adjusted())"
+                  and isinstance(t.values[1].comparators[0], ast.Constant) and isinstance(t.values[1].comparators[0].value, int)
+                  and any(isinstance(x, ast.Raise) for x in n.body))
+            if not ok:
+                raise ExtractError(f"{rel}: exponent range test is `{_src(t)}`")
+            bound = t.values[1].comparators[0].value
+    steps.append("range-test" if bound is not None else "MISSING:range-test")
+    # order of the tests on the parsed value
+    order = [k for k in ("decimal_value = Decimal(value)", "decimal_value.is_finite()", "decimal_value.adjusted()",
+                         "Fraction(decimal_value)", "exact_size.denominator != 1", "size = int(exact_size)") if k in src]
+    pos = [src.index(k) for k in order]
+    steps.append("order-ok" if len(order) == 6 and pos == sorted(pos) else "MISSING:order")
     plain_factors = [_src(n.value) for n in ast.walk(fn)
                      if isinstance(n, ast.Assign) and _src(n.targets[0]) == "unit_factor" and isinstance(n.value, ast.Constant)]
     steps.append("plain-factor:" + ",".join(sorted(set(plain_factors))))
-    return table, base, steps
+    return table, base, steps, (bound if bound is not None else 0)
 
 
 # ------------------------------------------------------------------------------------------------
@@ -608,9 +630,10 @@ def facts(repo):
     put("specInitParams", "List String", lean_list(lean_str(f) for f in params), "cubed/spec.py:Spec.__init__ parameters")
     put("specMemInit", "List String", lean_list(lean_str(f) for f in conv), "cubed/spec.py:Spec.__init__ (how the memory settings are stored)")
 
-    table, base, steps = bytes_facts(repo)
+    table, base, steps, bound = bytes_facts(repo)
     put("unitTable", "List (String × Nat)", lean_list(f"({lean_str(k)}, {v})" for k, v in table), "cubed/utils.py:convert_to_bytes units")
     put("unitBase", "Nat", str(base), "cubed/utils.py:convert_to_bytes `unit_factor = <base> ** units[unit]`")
+    put("adjustedBound", "Nat", str(bound), "cubed/utils.py:convert_to_bytes `abs(decimal_value.adjusted()) > <bound>` (0 = test absent)")
     put("bytesSteps", "List String", lean_list(lean_str(s) for s in steps), "cubed/utils.py:convert_to_bytes (statement shapes the model mirrors)")
 
     put("checkSpecsShape", "String", lean_str(check_facts(repo)), "cubed/core/array.py:check_array_specs")
